@@ -140,6 +140,10 @@ type disconnectHandler struct {
 	timer          *time.Timer
 	mu             sync.Mutex
 	disconnectedAt time.Time
+	// generation identifies the latest disconnect notification. A grace
+	// timer that has already fired carries the generation it was armed for
+	// and does nothing once a newer disconnect or a stop has superseded it.
+	generation uint64
 }
 
 func (d *disconnectHandler) handleDisconnect() {
@@ -184,18 +188,27 @@ func (d *disconnectHandler) handleDisconnect() {
 	d.disconnectedAt = time.Now()
 
 	// Start grace period timer
+	d.generation++
+	generation := d.generation
 	d.timer = time.AfterFunc(gracePeriod, func() {
-		d.handleGracePeriodExpired()
+		d.handleGracePeriodExpired(generation)
 	})
 }
 
 // handleGracePeriodExpired is called when grace period expires
-func (d *disconnectHandler) handleGracePeriodExpired() {
+func (d *disconnectHandler) handleGracePeriodExpired(generation uint64) {
 	// Do not hold d.mu while demoting: becomeFollower takes the election
 	// mutex, and Stop takes d.mu while holding the election mutex.
 	d.mu.Lock()
+	current := generation == d.generation
 	disconnectedAt := d.disconnectedAt
 	d.mu.Unlock()
+
+	if !current {
+		// A newer disconnect re-armed the grace period, or the timer was
+		// stopped, after this one had already fired.
+		return
+	}
 
 	if d.election.connectionMonitor != nil {
 		if d.election.connectionMonitor.Status() != ConnectionStatusDisconnected {
@@ -243,6 +256,7 @@ func (d *disconnectHandler) stop() {
 	d.mu.Lock()
 	defer d.mu.Unlock()
 
+	d.generation++
 	if d.timer != nil {
 		d.timer.Stop()
 		d.timer = nil
